@@ -182,8 +182,13 @@ func (brr *BalanceRR) Update(conf cluster_table_conf.SubClusterBackend) {
 		}
 	}
 
-	// add new backend to backendsNew
-	for _, bkConf := range confMap {
+	// add new backend to backendsNew (in configured order; map iteration is not in order)
+	for _, bk := range conf {
+		bkConf, ok := confMap[bk.AddrInfo()]
+		if !ok {
+			continue
+		}
+		delete(confMap, bk.AddrInfo())
 		backendRR := NewBackendRR()
 		backendRR.Init(brr.Name, bkConf)
 		backend := backendRR.backend
